@@ -444,9 +444,17 @@ def replay(path):
             return 1
         d = kv(out[0])
         if toks[0] == "sink":
+            ref_toks = list(toks)
+            ref_toks[4] = "none"
+            rout, _, _ = vlib.run_lines(drv, [" ".join(ref_toks)])
+            rd = kv(rout[0]) if rout else {}
+            print("fault-free run:  ", rout)
             st = [int(x) for x in d["st"].split(",")]
-            failed = d["sinkfail"] == "1" or toks[4].startswith("byte:")
-            return 1 if (failed and all(x == 0 for x in st)) else 0
+            failed = d["sinkfail"] == "1" or (toks[4].startswith("byte:") and int(toks[4][5:]) < int(rd.get("n", 0)))
+            unreported = failed and all(x == 0 for x in st)
+            ok_but_short = d["closed"] == "1" and st[-1] == 0 and (d["n"], d["fnv"]) != (rd.get("n"), rd.get("fnv"))
+            print("sink failed:", failed, " every call OK:", all(x == 0 for x in st), " close OK with other bytes than the fault-free run:", ok_but_short)
+            return 1 if (unreported or ok_but_short or d.get("leak") != "0") else 0
         return 1 if d.get("exists") != "0" or d.get("leak") != "0" else 0
     finally:
         shutil.rmtree(tmp, ignore_errors=True)
